@@ -287,6 +287,12 @@ def _dom_qgauss_seq(tier, seed):
                         cur = prev          # this call is dropped: the object has not seen its point count
                         continue
                 ys = np.array([rng.uniform(-2, 2) for _ in range(m)])
+                if rng.random() < 0.35:
+                    # tables indexed by whole numbers (channel, pixel or bin numbers) are tables too: integer columns
+                    off = rng.choice([0, 0, 100, -3])
+                    xs = (np.cumsum([rng.choice([1, 1, 2, 5]) for _ in range(m)]) + off).astype(rng.choice(["i8", "i4", "i2", "u2"] if off >= 0 else ["i8", "i4", "i2"]))
+                    if rng.random() < 0.3:
+                        ys = np.array([rng.randint(-5, 5) for _ in range(m)], dtype=rng.choice(["i8", "i4"]))
                 calls.append(("data", (xs, ys), n, eff))
 
         def run(n0=n0, calls=calls):
